@@ -293,8 +293,9 @@ def _r4(ctx):
     def defs(name):
         return [a for a in C.assigns_to(f.node, name)]
     aw = defs(U(kw["arch_warning"])) if "arch_warning" in kw else []
-    ok = len(aw) == 1 and U(aw[0].value) in ("False if args.arch else True", "not args.arch", "args.arch is None",
-                                                "True if not args.arch else False", "True if args.arch is None else False")
+    ok = len(aw) == 1 and U(aw[0].value) in [C.CT(t) for t in (
+        "False if args.arch else True", "not args.arch", "args.arch is None", "True if not args.arch else False",
+        "True if args.arch is None else False")]
     ctx.check(ok, "R4", "arch warning exactly when no --arch was given", f.where(aw[0]) if aw else f.where(),
               "arch_warning is %s" % ([U(a.value) for a in aw]), f.qname, "arch warning definition")
     lw = defs(U(kw["length_warning"])) if "length_warning" in kw else []
